@@ -8,20 +8,20 @@ Open Scope R_scope.
 
 (* fraction / percent: a unit change inside the same material basis is "virtual" (labels only, caches kept);
    a basis change converts the data twice: per-material part, then the adsorbate part (wt% -> vol%) *)
-Theorem convert_material_step_frac psat M rml rmg dens mm T tk rp cp cl cb li pi vb (rl : lrep) (rm rm' : mrep) :
-  0 < dens -> 0 < mm -> 0 < M -> 0 < rml -> 0 < rmg -> l_is_phys rl = false ->
-  convert_material RNum (mk_state rp rl rm tk T (ads_full psat M rml rmg) (mat_full dens mm) cp cl cb li pi) (m_basis rm') (m_unit rm') vb
-  = SOk (if mrep_eqb rm' rm then mk_state rp rl rm tk T (ads_full psat M rml rmg) (mat_full dens mm) cp cl cb li pi
-         else if same_mbasis rm' rm then mk_state rp rl rm' tk T (ads_full psat M rml rmg) (mat_full dens mm) cp cl cb li pi
-         else mk_state rp rl rm' tk T (ads_full psat M rml rmg) (mat_full dens mm) cp
+Theorem convert_material_step_frac (a : adsorbate RNum) M rml rmg dens mm T tk rp cp cl cb li pi vb (rl : lrep) (rm rm' : mrep) :
+  ads_at a (Some (kelvin_of tk T)) M rml rmg -> 0 < dens -> 0 < mm -> 0 < M -> 0 < rml -> 0 < rmg -> l_is_phys rl = false ->
+  convert_material RNum (mk_state rp rl rm tk T a (mat_full dens mm) cp cl cb li pi) (m_basis rm') (m_unit rm') vb
+  = SOk (if mrep_eqb rm' rm then mk_state rp rl rm tk T a (mat_full dens mm) cp cl cb li pi
+         else if same_mbasis rm' rm then mk_state rp rl rm' tk T a (mat_full dens mm) cp cl cb li pi
+         else mk_state rp rl rm' tk T a (mat_full dens mm) cp
                 (map (spec_conv (l_canon_phys M rml rmg (l_of_m rm)) (l_canon_phys M rml rmg (l_of_m rm')))
                    (map (spec_conv (m_canon dens mm rm') (m_canon dens mm rm)) cl)) cb None None).
 Proof.
-  intros Hd Hm HM Hl Hg Hphys.
+  intros Ha Hd Hm HM Hl Hg Hphys.
   pose proof (fun v => c_material_factor_all dens mm v rm rm' Hd Hm) as HF.
   assert (P1 : l_is_phys (l_of_m rm) = true) by (destruct rm; reflexivity).
   assert (P2 : l_is_phys (l_of_m rm') = true) by (destruct rm'; reflexivity).
-  pose proof (fun v => c_loading_factor_phys M rml rmg (Some (kelvin_of tk T)) v None None (Some psat) (l_of_m rm) (l_of_m rm') HM Hl Hg P1 P2) as HG.
+  pose proof (fun v => c_loading_factor_phys_at M rml rmg (Some (kelvin_of tk T)) v None None (l_of_m rm) (l_of_m rm') a Ha HM Hl Hg P1 P2) as HG.
   clear P1 P2.
   unfold convert_material.
   destruct rl as [u|u|u|u| |]; try discriminate Hphys;
